@@ -1314,7 +1314,16 @@ def witnesses_known(ctx):
     """replay the witnesses of open findings (prints the KNOWN-FINDING lines)"""
     for kf in ctx.findings.for_property('C08'):
         w = kf.get('witness') or {}
-        if 'recipe' in w:
+        if 'recipe' in w and 'expect_raises' in w:
+            # the class lies outside the model's well-formedness predicate: replay on the implementation only
+            r = recipe_of_line(w['recipe'])
+            impl = observe(r, make_grid(r, random.Random(0)))
+            ctx.case(sx(['c08', 'case', r, []]), nontrivial=False)
+            if impl.get('phase') == 'observe' and impl.get('error') == w['expect_raises']:
+                ctx.known_finding(kf['finding'], kf.get('what', ''))
+            else:
+                ctx.count('known-not-reproduced:' + kf['finding'])
+        elif 'recipe' in w:
             B = Batch()
             g = check_group(B, ctx, recipe_of_line(w['recipe']), w.get('subseed', 0), 'known-' + kf['finding'], light=True)
             B.run()
